@@ -31,6 +31,22 @@ def main(path):
         print('expected   :', [repr(x) for x in exp], c.get('expected_iout'))
         bad = any(not engine.same_float(a, b) for a, b in zip(o, exp))
         bad = bad or any((a & 0xFFFFFFFFFFFFFFFF) != (b & 0xFFFFFFFFFFFFFFFF) for a, b in zip(io, c.get('expected_iout', [])))
+    elif c['kind'] == 'ulp':
+        from fractions import Fraction
+        from .algebra import ulp
+        from . import terms as tm
+        n, d = c['exact'].split('/')
+        E = Fraction(int(n), int(d))
+        n, d = c['magnitude'].split('/')
+        M = Fraction(int(n), int(d))
+        got = o[c.get('out_index', 0)]
+        T = w.out_ty
+        if not np.isfinite(got):
+            err = float('inf')
+        else:
+            err = float(abs(core.np_to_frac(got) - E) / ulp(tm.FPREC[T], tm.FEMIN[T], M))
+        print('exact value: %.20g   impl: %r   error: %.4g ulps   allowed: %s' % (float(E), got, err, c['K']))
+        bad = err > c['K']
     else:
         print('observed at detection time:', c.get('observed'))
         bad = True
